@@ -193,6 +193,11 @@ func (r RawSuite) Validate() error {
 }
 
 func parseRawSuite(raw string) (SuiteConfig, error) {
+	for i := 0; i < len(raw); i++ {
+		if raw[i] >= 0x80 { // strings.ToUpper would fold U+017F/U+0131 into 'S'/'I'
+			return SuiteConfig{}, fmt.Errorf("invalid OCRA suite format: %q", raw)
+		}
+	}
 	parts := strings.Split(raw, ":")
 	if len(parts) != 3 {
 		return SuiteConfig{}, fmt.Errorf("invalid OCRA suite format: %q", raw)
